@@ -82,7 +82,12 @@ def _pipeline_info(pipe, data, context, former_data=None):
             merged = done[0]
             for d in done[1:]:
                 merged.union(d)
-            new_data = OrderedDict([(k, v) for k, v in data.items() if k not in merged])
+            items = (
+                data.items()
+                if isinstance(data, (OrderedDict, dict))
+                else [(k, k) for k in data]
+            )
+            new_data = OrderedDict([(k, v) for k, v in items if k not in merged])
 
             info = _pipeline_info(
                 "passthrough", new_data, context, former_data=new_data
